@@ -8,15 +8,15 @@ extern crate alloc;
 pub use paseto_core::PasetoError;
 
 #[path = "../gen/base64_unit.rs"]
-mod base64;
+pub mod base64;
 
 pub mod oracle;
 pub mod l3;
 #[cfg(kani)]
-mod api;
+pub mod api;
 #[cfg(kani)]
-mod pae;
+pub mod pae;
 #[cfg(kani)]
-mod validation;
+pub mod validation;
 #[cfg(kani)]
-mod tokens;
+pub mod tokens;
